@@ -332,7 +332,8 @@ def r_containment(ctx: Ctx, rule: str):
     gt = ctx.prog.functions.get(f"{PARSER_MOD}._get_type_from_annotation")
     if gt is not None:
         for r in [n for n in ast.walk(gt.node) if isinstance(n, ast.Return) and n.value is not None]:
-            ok = isinstance(r.value, ast.Call) and any(t.name == "_get_arg_type_wrapper" for t in ctx.an.scope(gt).callee(r.value).targets)
+            rv = ctx.vals.resolve(gt, r.value)
+            ok = isinstance(rv, ast.Call) and any(t.name == "_get_arg_type_wrapper" for t in ctx.an.scope(gt).callee(rv).targets)
             rep.ob(rule, "every converter handed to argparse is wrapped by _get_arg_type_wrapper", ok, func=gt, construct=r)
     afa = cp.methods.get("add_function_arg")
     if afa is not None:
@@ -772,7 +773,7 @@ def r_return_or_exception(ctx: Ctx, rule: str):
         live = [u for u in ucalls if u in reach([g.entry], is_coro)]
         for u in ctx.distinct_sites(live):
             copies = [x for x in live if x.ast is u.ast]
-            awaits = {m for m in g.nodes if m.op == "await" and V.resolve(f, m.ast.value) is u.ast}
+            awaits = {m for m in g.nodes if m.op == "await" and any(x is u.ast for x in V.alts(f, m.ast.value))}
             escaped = g.exit in reach(copies, is_coro, avoid=awaits)
             rep.ob(rule, "a coroutine method (gather-and-close, flush, until-closed) is awaited before replying", bool(awaits) and not escaped, node=u)
     # what is returned: the member's result (awaited or not), or - from the handler - the exception it raised
@@ -780,11 +781,20 @@ def r_return_or_exception(ctx: Ctx, rule: str):
     for r in ctx.distinct_sites(ctx.nodes(f, lambda n: n.op == "return")):
         v = r.ast.value
         leaves = []
-        for x in (V.alts(f, v) if v is not None else []):
-            if isinstance(x, ast.Await):
-                leaves += V.alts(f, x.value)
-            else:
-                leaves.append(x)
+        seen_ids = set()
+
+        def flatten(x_: ast.AST, depth: int = 0) -> None:
+            for x in V.alts(f, x_):
+                if id(x) in seen_ids or depth > 6:
+                    continue
+                seen_ids.add(id(x))
+                if isinstance(x, ast.Await):
+                    flatten(x.value, depth + 1)  # `output = await output`: what was awaited
+                else:
+                    leaves.append(x)
+
+        if v is not None:
+            flatten(v)
         exc_leaves = [x for x in leaves if isinstance(x, ast.Name) and x.id in excvars]
         res_leaves = [x for x in leaves if x not in exc_leaves]
         in_handler = any(True for h in ctx.nodes(f, lambda n: n.op == "handler") if r in reach([h], lambda a, b, lab: lab[0] in NORMAL_KINDS))
@@ -810,10 +820,37 @@ def tests_matching(ctx: Ctx, f: FuncInfo, texts) -> List[Node]:
     """test steps of f (or of a helper spliced into it) one of whose conjuncts reads - with locals, module constants and
     helper parameters resolved - like one of `texts`"""
     out = []
+    def bare(e: ast.AST) -> ast.AST:
+        while isinstance(e, ast.UnaryOp) and isinstance(e.op, ast.Not):
+            e = e.operand
+        return e
+
     for t in ctx.nodes(f, lambda n: n.op == "test"):
-        if any(ctx.vals.canon_at(t.func, t.env, c).replace(" ", "") in texts for c in conjuncts(t.ast)):
+        cs = conjuncts(t.ast) + conjuncts(bare(t.ast))
+        if any(ctx.vals.canon_at(t.func, t.env, bare(c)).replace(" ", "") in texts for c in cs):
             out.append(t)
     return out
+
+
+def negated(e: ast.AST) -> bool:
+    n = False
+    while isinstance(e, ast.UnaryOp) and isinstance(e.op, ast.Not):
+        e, n = e.operand, not n
+    return n
+
+
+def only_when(ctx: Ctx, f: FuncInfo, tests: List[Node], target: Node) -> bool:
+    """`target` runs only on paths on which one of the tests (given in their positive reading) held"""
+    g = ctx.an.cfg(f)
+    ts = set(tests)
+
+    def ef(a: Node, b: Node, lab: Label) -> bool:
+        if a in ts and lab[0] in ("T", "F"):
+            holds = (lab[0] == "T") != negated(a.ast)
+            return not holds
+        return True
+
+    return bool(tests) and target not in reach([g.entry], ef)
 
 
 class DictDefault:
@@ -876,9 +913,10 @@ def r_arg_mapping(ctx: Ctx, rule: str):
            construct=sets["nargs"].node if "nargs" in sets else "(no nargs)")
     if t_bool and "action" in sets and "default" in sets:
         for cp_ in [x for x in g.nodes if x.ast is t_bool[0].ast and x.op == "test" and x.pred]:
-            tb = reach([s for s, lab in cp_.succ if lab[0] == "T"], lambda a, b, lab: lab[0] in NORMAL_KINDS)
+            yes, no = ("F", "T") if negated(cp_.ast) else ("T", "F")
+            tb = reach([s for s, lab in cp_.succ if lab[0] == yes], lambda a, b, lab: lab[0] in NORMAL_KINDS)
             rep.ob(rule, "store_true is chosen exactly for bool parameters and the default for all others",
-                   any(m.ast is sets["action"].node.ast for m in tb) and any(m.ast is sets["default"].node.ast for m in reach([s for s, lab in cp_.succ if lab[0] == "F"], lambda a, b, lab: lab[0] in NORMAL_KINDS)), node=cp_)
+                   any(m.ast is sets["action"].node.ast for m in tb) and any(m.ast is sets["default"].node.ast for m in reach([s for s, lab in cp_.succ if lab[0] == no], lambda a, b, lab: lab[0] in NORMAL_KINDS)), node=cp_)
     # long option name: '--' + <parameter name>.replace('_', '-'), in this function or in a helper it hands the name to
     def long_name_in(fr: FuncInfo, nm_txt: str) -> bool:
         t = ast.unparse(fr.node).replace(" ", "")
@@ -1058,12 +1096,12 @@ def r_surface(ctx: Ctx, rule: str):
         fc = ctx.distinct_sites(ctx.nodes(f, lambda n: ctx.is_call_to(n, "add_function_command")))
         pc = ctx.distinct_sites(ctx.nodes(f, lambda n: ctx.is_call_to(n, "add_property_command")))
         for c in fc:
-            tests = [t for t in ctx.nodes(f, lambda n: n.op == "test" and ast.unparse(n.ast).replace(" ", "") == f"isfunction({mv})")]
-            ok = bool(tests) and all(c not in reach([g.entry], avoid=set(tests)) for _ in [0]) and isinstance(c.ast.args[0], ast.Name) and c.ast.args[0].id == mv
+            tests = tests_matching(ctx, f, (f"isfunction({mv})", f"inspect.isfunction({mv})"))
+            ok = only_when(ctx, f, tests, c) and isinstance(c.ast.args[0], ast.Name) and c.ast.args[0].id == mv
             rep.ob(rule, "plain functions (methods) become function commands", ok, node=c)
         for c in pc:
-            tests = [t for t in ctx.nodes(f, lambda n: n.op == "test" and ast.unparse(n.ast).replace(" ", "") == f"isinstance({mv},property)")]
-            ok = bool(tests) and c not in reach([g.entry], avoid=set(tests)) and isinstance(c.ast.args[0], ast.Name) and c.ast.args[0].id == mv
+            tests = tests_matching(ctx, f, (f"isinstance({mv},property)",))
+            ok = only_when(ctx, f, tests, c) and isinstance(c.ast.args[0], ast.Name) and c.ast.args[0].id == mv
             rep.ob(rule, "properties become property commands", ok, node=c)
         rep.ob(rule, "public methods of the pool class are turned into commands", bool(fc), func=f, construct=fc[0] if fc else "(add_function_command is never called)")
         rep.ob(rule, "public properties of the pool class are turned into commands", bool(pc), func=f, construct=pc[0] if pc else "(add_property_command is never called)")
@@ -1083,7 +1121,7 @@ def r_surface(ctx: Ctx, rule: str):
         if m is None:
             continue
         dd = dict_defaults(ctx, m)
-        ok = "name" in dd and ctx.vals.canon_at(dd["name"].node.func, dd["name"].node.env, dd["name"].value).replace(" ", "") == attr
+        ok = "name" in dd and ctx.vals.canon_call(dd["name"].node.func, dd["name"].node.env, dd["name"].value).replace(" ", "") == attr
         rep.ob(rule, f"{nm} names the command after the member with underscores as dashes", ok, func=m, construct="command name")
     # help stays enabled
     bad = []
